@@ -440,3 +440,7 @@ _add(
     m("call-order-with-gaps", D, "                for i, child_call_hash in enumerate(recorded_children):\n                    session.add(", "                for i, child_call_hash in enumerate(child_call_hashes):\n                    if child_call_hash in recorded_child_hashes:\n                      session.add(", "C23.6"),
     m("children-exported-unordered", SER, "                for edge in sorted(call_node.child_edges, key=lambda edge: edge.call_order)", "                for edge in call_node.child_edges", "C23.6"),
 )
+_add(
+    "C26",
+    m("default-returned-unevaluated", "redun/context.py", "        lambda context: scheduler.evaluate(\n            get_context_value(context, var_path, default), parent_job=parent_job\n        )", "        lambda context: get_context_value(context, var_path, default)", "C26.3"),
+)
